@@ -47,6 +47,9 @@ struct Worker {
     m: Matcher,
     todo: Vec<u32>,
     got: Vec<Option<Vec<u32>>>,
+    /// the clone's own operations and what they returned (replayed on the engine model)
+    ops: Vec<Op>,
+    res: Vec<Sx>,
 }
 impl Worker {
     fn step(&mut self) -> bool {
@@ -56,18 +59,30 @@ impl Worker {
             }
             return false;
         }
-        self.got.push(self.m.compute_mask().ok().map(|v| mask_list(&v)));
+        let (r, mask) = run_op(&mut self.m, &Op::Mask);
+        self.ops.push(Op::Mask);
+        self.res.push(r);
+        self.got.push(mask);
         let t = self.todo.remove(0);
-        let _ = self.m.consume_token(t);
+        let (r, _) = run_op(&mut self.m, &Op::Commit(t));
+        self.ops.push(Op::Commit(t));
+        self.res.push(r);
         true
     }
     fn finish(&mut self) {
-        self.got.push(if self.m.is_stopped() { None } else { self.m.compute_mask().ok().map(|v| mask_list(&v)) });
+        if self.m.is_stopped() {
+            self.got.push(None);
+        } else {
+            let (r, mask) = run_op(&mut self.m, &Op::Mask);
+            self.ops.push(Op::Mask);
+            self.res.push(r);
+            self.got.push(mask);
+        }
     }
 }
 
 pub fn case(rng: &mut Rng, out: &mut Out, threads: bool) {
-    let g = gen_gram(rng);
+    let g = if rng.chance(1, 3) { gen_diamond_gram(rng) } else { gen_gram(rng) };
     let lark = g.to_lark();
     let (ws, eos) = gen_engine_vocab(rng, 30);
     let env = make_env(&ws, eos, false);
@@ -78,9 +93,17 @@ pub fn case(rng: &mut Rng, out: &mut Out, threads: bool) {
     // common prefix, then clones with different continuations
     let np = rng.below(3);
     let prefix = plan_history(rng, &env, &lark, &ws, eos, &[], np);
+    let mut pre_ops: Vec<Op> = vec![];
+    let mut pre_res: Vec<Sx> = vec![];
     for &t in &prefix {
-        let _ = base.compute_mask();
-        if base.consume_token(t).is_err() {
+        let (r, _) = run_op(&mut base, &Op::Mask);
+        pre_ops.push(Op::Mask);
+        pre_res.push(r);
+        let (r, _) = run_op(&mut base, &Op::Commit(t));
+        let ok = r.to_string() == "(ok)";
+        pre_ops.push(Op::Commit(t));
+        pre_res.push(r);
+        if !ok {
             return;
         }
     }
@@ -96,7 +119,7 @@ pub fn case(rng: &mut Rng, out: &mut Out, threads: bool) {
         let Some(exp) = private_run(&env, &lark, &hist) else { return };
         expected.push(exp[prefix.len()..].to_vec());
         let m = if i % 2 == 0 { base.clone() } else { base.deep_clone() };
-        workers.push(Worker { m, todo: hist[prefix.len()..].to_vec(), got: vec![] });
+        workers.push(Worker { m, todo: hist[prefix.len()..].to_vec(), got: vec![], ops: vec![], res: vec![] });
     }
     let mut sched_descr = String::new();
     if threads {
@@ -150,7 +173,20 @@ pub fn case(rng: &mut Rng, out: &mut Out, threads: bool) {
             break;
         }
     }
-    // model side: the interleaving as a list of (clone, op) over the memo model
+    // model side: what the first clones did under this schedule, replayed on the engine model
+    // (prefix on the common engine, then the clone's own operations)
+    for w in workers.iter().take(2) {
+        let mut ops = pre_ops.clone();
+        ops.extend(w.ops.iter().cloned());
+        let mut res = pre_res.clone();
+        res.extend(w.res.iter().cloned());
+        let mut inp = vec![g.to_sx()];
+        inp.extend(vocab_sx(&ws, eos));
+        inp.push(tagged("canonical", vec![int(0)]));
+        inp.push(tagged("ops", ops.iter().map(|o| o.to_sx()).collect()));
+        out.case(tagged("session", inp), tagged("session", res), true);
+        out.count("clone_sessions_on_model", 1);
+    }
     let hists: Vec<Sx> = expected.iter().map(|e| int(e.len())).collect();
     out.case(tagged("noop", vec![int(k), list(hists)]), tagged("noop", vec![int(k), list(expected.iter().map(|e| int(e.len())).collect())]), !bad);
     out.count("clones", k as u64);
